@@ -3,9 +3,9 @@ import json
 
 import fam_fs as F
 from pipeline import PropSpec
-from C10 import FS_ANCHORS, FS_CONSTS, KLASS_IDS, nontrivial as c10_nontrivial
+from C10 import FS_ANCHORS, FS_CONSTS, KLASS_IDS, KNOWN_IDS, nontrivial as c10_nontrivial
 
-HEADER = ("From TV.Lib Require Import Base.\nFrom TV.Fs Require Import FsImpl FsSpec FsSafe FsDurable.\n"
+HEADER = ("From TV.Lib Require Import Base.\nFrom TV.Fs Require Import FsImpl FsSpec FsSafe FsDurable FsKnown.\n"
           "Open Scope N_scope.\n")
 
 
@@ -148,12 +148,13 @@ class Spec(PropSpec):
         dterm = term.replace("hrun_enc %d%%nat %d%%nat" % (n, bs), "hdrun_enc %d%%nat %d%%nat" % (n, bs), 1)
         cterm = term.replace("hrun_enc", "hdclasses_enc", 1)
         sterm = "dsafe_enc" + term.split("hrun_enc %d%%nat" % n, 1)[1]
-        return "(%s, %s, %s, %s)" % (term, dterm, cterm, sterm), probes, problems
+        kterm = term.replace("hrun_enc", "hknown_enc", 1)
+        return "(%s, %s, %s, %s, %s)" % (term, dterm, cterm, sterm, kterm), probes, problems
 
     def compare(self, case, obs, model, probes):
         if isinstance(model, tuple) and model and model[0] == "error":
             return "model evaluation failed: %s" % str(model[1])[-400:]
-        impl_m, (dur_m, dur_flags), klasses, coq_safe = model
+        impl_m, (dur_m, dur_flags), klasses, coq_safe, knowns = model
         d = F.compare(case, obs, impl_m, probes)
         if d:
             return d
@@ -170,10 +171,9 @@ class Spec(PropSpec):
             if py_safe != bool(coq_safe):
                 return "side condition of c07_crash_image_partial: python says %s, dsafe (Coq) says %s (features %s)" % (
                     py_safe, bool(coq_safe), sorted(feats))
-        if "RenameFileAny" in feats_all:
-            # the python durable model adds the rule "a rename becomes durable with the new name" (a file has
-            # one durable name); FsDurable.v does not interpret successful file renames (outside the theorem)
-            return None
+        pk = sorted(KNOWN_IDS[k] for k in feats_all if k in KNOWN_IDS)
+        if not any(dur_flags) and pk != sorted(set(knowns)):
+            return "known classes disagree: python %s, FsKnown.v %s" % (pk, sorted(set(knowns)))
         exp, flags = durable_expected(case, obs)
         for i, (a, fl) in enumerate(zip(exp, flags)):
             if bool(dur_flags[i]) != fl:
